@@ -852,6 +852,31 @@ def c01_r5_cow(ctx):
     ctx.check(len(exc) <= 1, 'cow|insert_helper|freed.push', 'at most the one confirmed unguarded freed.push (same-size replacement) in insert_helper, found %d' % len(exc), exc[0][0] if exc else None, exc[0][1].line if exc else None)
     ctx.check(not other, 'cow|%s|freed.push' % (other[0][0].path if other else ''), 'every other direct freed.push in btree_mutator is behind uncommitted() == false', other[0][0] if other else None, other[0][1].line if other else None)
 
+    ctx.set_rule('C01.R5f', 'mutable value guards and cursor free lists respect the committed/uncommitted split')
+    f = ctx.fn('AccessGuardMut::new')
+    if f is not None:
+        aggs = []
+        for i, b_ in enumerate(f.blocks):
+            for j, s_ in enumerate(b_['s']):
+                if s_[0] == 'a' and s_[2]['k'] == 'agg' and s_[2]['a'].endswith('AccessGuardMut'):
+                    aggs.append(Point(f, i, j, 'construct AccessGuardMut', s_[3]))
+        ctx.check(len(aggs) == 1, 'floor|%s|construct' % f.path, 'AccessGuardMut::new constructs the guard once', f, f.line)
+        ctx.guarded(f, aggs, [true_of(PA + '::uncommitted')], 'a mutable value guard exists only over an uncommitted page (assert!)')
+        ctx.sites(f, PA + '::uncommitted', exact=2)
+    constructors_eq(ctx, 'AccessGuardMut', {'AccessGuardMut::new'})
+    f = ctx.fn('CursorTree::drain_freed')
+    if f is not None:
+        fu = ctx.sites(f, PA + '::free_if_uncommitted', exact=1)
+        pu = ctx.sites(f, 'Vec::push', exact=1)
+        ctx.guarded(f, pu, [false_of(PA + '::free_if_uncommitted')], 'only committed pages are queued on the shared freed list')
+        nxt = [c for c in f.calls if c.matches('Iterator::next')]
+        e_none = core.guard_edges(f, [Guard(call='Iterator::next', vals={'None'})])
+        for n_ in nxt:
+            r = core.reach(f, start=(n_.bb, len(f.blocks[n_.bb]['s']) - 1), cut_edges=e_none, cut_blocks={p_.bb for p_ in fu})
+            looped = any(f.succ(bb_)[si_][0] == n_.bb for (bb_, si_) in r['edges'])
+            fin = any(rb in r['term'] for rb in f.ret_blocks())
+            ctx.check(not (looped or fin), 'must-pass|%s|drained-page-skipped' % f.path, 'every page drained from the cursor free list is either freed (uncommitted) or queued (committed)', f, n_.line)
+
     ctx.set_rule('C01.R5d', 'unsafe inventory: owners of unsafe blocks are the confirmed ones')
     allowed = {
         'PageList::from_bytes_mut': 'transmute of a byte slice to the in-place PageList view (values, not pages of other snapshots)',
@@ -1821,6 +1846,7 @@ def c06_r5_tracking(ctx):
         ctx.guarded(f, d, [false_of(TT + '::any_savepoint_exists')])
         st = ctx.atomic_sites(f, 'store', 'dirty', exact=1, value=True)
         ctx.order(f, st, d, 'dirty flag set before the savepoint test')
+        ctx.must_pass(f, st, exits='any', what='set_dirty always sets the dirty flag')
     ctx.callers_eq('PageTracker::disable', {'TableNamespace::set_dirty'})
     ctx.callers_eq('TableNamespace::set_dirty', {'TableNamespace::open_table', 'TableNamespace::open_multimap_table', 'TableNamespace::rename_table', 'TableNamespace::rename_multimap_table', 'TableNamespace::delete_table', 'TableNamespace::delete_multimap_table'})
     for nm in ('open_table', 'open_multimap_table', 'rename_table', 'rename_multimap_table', 'delete_table', 'delete_multimap_table'):
